@@ -245,28 +245,6 @@ pub fn collect_modules(entry_path: &str) -> CliResult<Vec<ParsedModule>> {
                         continue;
                     }
 
-                    let mut target_dir = base_dir.to_path_buf();
-
-                    if path.is_absolute {
-                        let mut project_root = base_dir.to_path_buf();
-                        while !project_root.join("Cargo.toml").exists() && !project_root.join("src").exists() {
-                            if let Some(parent) = project_root.parent() {
-                                project_root = parent.to_path_buf();
-                            } else {
-                                break;
-                            }
-                        }
-                        if project_root.join("src").exists() {
-                            target_dir = project_root.join("src");
-                        } else {
-                            target_dir = project_root;
-                        }
-                    } else {
-                        for _ in 0..path.parent_levels {
-                            target_dir = target_dir.parent().map(|p| p.to_path_buf()).unwrap_or(target_dir);
-                        }
-                    }
-
                     let module_segments = match &import.kind {
                         crate::frontend::ast::ImportKind::From { module, .. } => module.segments.clone(),
                         crate::frontend::ast::ImportKind::Module(p) => {
@@ -283,22 +261,15 @@ pub fn collect_modules(entry_path: &str) -> CliResult<Vec<ParsedModule>> {
                         continue;
                     }
 
-                    let mut dep_path = target_dir.clone();
-                    for segment in &module_segments {
-                        dep_path = dep_path.join(segment);
-                    }
-
-                    dep_path.set_extension("incn");
-                    let mut found_path: Option<PathBuf> = None;
-
-                    if dep_path.exists() {
-                        found_path = Some(dep_path.clone());
+                    // One resolver for the command line and the language server: paths are relative to the
+                    // directory of the *importing* file (`..`/`super` from there, `crate` from the project root).
+                    let importing_dir = Path::new(&file_path).parent().unwrap_or(base_dir);
+                    let importing_dir = if importing_dir.as_os_str().is_empty() {
+                        Path::new(".")
                     } else {
-                        dep_path.set_extension("incan");
-                        if dep_path.exists() {
-                            found_path = Some(dep_path.clone());
-                        }
-                    }
+                        importing_dir
+                    };
+                    let found_path = crate::frontend::module::resolve_import_path(importing_dir, import);
 
                     if let Some(path) = found_path {
                         let dep_path_str = path.to_string_lossy().to_string();
